@@ -1,8 +1,10 @@
 #!/bin/bash
 # run every claimed check's quick tier under seeds 0..7; print anything that is not a clean exit 0
+# usage: tools/allseeds.sh [ids...]   (full log of non-clean runs goes to stdout; redirect to a file)
 cd /verif
 ids=${@:-$(python3 -c "import json; print(' '.join(c['property_id'] for c in json.load(open('MANIFEST.json'))['checks']))")}
 for id in $ids; do for seed in 0 1 2 3 4 5 6 7; do
   out=$(VERIF_SEED=$seed ./check $id quick 2>&1); rc=$?
-  if [ $rc -ne 0 ] || echo "$out" | grep -q "^VIOLATION"; then echo "== $id seed=$seed rc=$rc"; echo "$out" | grep -A2 "VIOLATION\|MACHINERY" | head -20; fi
+  if [ $rc -ne 0 ] || echo "$out" | grep -q "^VIOLATION\|MACHINERY"; then echo "== $id seed=$seed rc=$rc"; echo "$out" | grep -A2 "^VIOLATION\|MACHINERY" | cut -c1-400 | head -20; fi
 done; echo "$id done"; done
+echo ALLSEEDS-FINISHED
